@@ -39,6 +39,11 @@ class SimFile(io.BufferedIOBase):
         self.closed_count = 0
 
     # --- helpers for the harness -------------------------------------------------------
+    def set_content(self, data: bytes) -> None:
+        """The stored bytes are replaced (same file object, new content) and the cursor rewound."""
+        self._data = bytearray(data)
+        self._pos = 0
+
     def getvalue(self) -> bytes:
         return bytes(self._data)
 
